@@ -632,6 +632,7 @@ func c13Explore(t *testing.T, c *ev.Collector, k c13Case) {
 		}
 	}
 	e.Explore()
+	c.AddExtra("replay_deviations_recovered", int64(len(e.Recovered)))
 	for _, d := range e.Divergences {
 		c.HarnessError("replay divergence in %s: %s", k.key(), d)
 	}
